@@ -54,12 +54,12 @@ theorem stroke_polyline_emission_shape (e : Env K) (store : Nat → List K) (hfw
     (hfar : ∀ i, i < n → pointsAreTooClose e.thr (pt i) (pt (i + 1)) = false)
     (hnf : ∀ i, 1 ≤ i → i < n → noFoldAt e (pt (i - 1)) (pt i) (pt (i + 1))) :
     Emitted e pt n (runEvents e store (polyEvs pt n)).st.out :=
-  run_emitted e store hfw hj hs he hw0 pt n hn hfar hnf
+  run_emitted e store hfw (Or.inl hj) hs he hw0 pt n hn hfar hnf
 
 /-- **`stroke_polyline_covers_rectangles`.**  Complete stroker model, open polyline `pt 0 … pt n`
-(`n ≥ 1` edges), fixed width `w = 2·e.hwFw > 0`, Bevel or Miter join (any miter limit) or MiterClip join none of
-whose miters exceeds the limit (part of `Regime`; a clipped MiterClip join is NOT covered), butt or square
-caps (independently), exact arithmetic (`sqrt x ≥ 0`, `sqrt x² = x`; `Line::intersection` with guard
+(`n ≥ 1` edges), fixed width `w = 2·e.hwFw > 0`, Bevel, Miter or MiterClip join (any miter limit; `≥ 1` and
+`eps < w/2` for MiterClip: `CoverHyp.clip`; kept AND clipped miters) or Round join, butt, square or round
+caps (independently; Round join / cap: with the law `cos² + sin² = 1`, see `Props/C06f.lean`), exact arithmetic (`sqrt x ≥ 0`, `sqrt x² = x`; `Line::intersection` with guard
 `eps ≥ 0`), in the no-fold regime `Regime e eps pt n`:
 for every segment `k < n` and every point `q = p_k + s·(p_{k+1} − p_k) + u·perp(t_k)·w/2` of its
 rectangle (`0 ≤ s ≤ 1`, `−1 ≤ u ≤ 1`) the output contains an index triple `t` whose three vertices
@@ -105,7 +105,7 @@ theorem stroke_reach_factor_bevel (e : Env K) (eps : K) (h : CoverHyp e eps) (pt
     (hr : Regime e eps pt n) (hb : e.o.join = .bevel) (k : Nat) (hk : k < n) :
     reachSq e pt n k ≤ e.hwFw * e.hwFw * (1 + (Max.max (if k = 0 then capU e.o.startCap else 0)
       (if k + 1 = n then capU e.o.endCap else 0)) ^ 2) := by
-  have h1 := outK_bevel h hr hb k hk
+  have h1 := outK_bevel h hr (Or.inl hb) k hk
   have h0 := (outK_bounds e pt n k).1
   have hw := h.hw
   unfold reachSq
@@ -184,15 +184,28 @@ theorem len_of_sq (v : P ℝ) (L : ℝ) (hL : 0 ≤ L) (h : v.sqLen = L ^ 2) : l
   show Real.sqrt _ = L
   rw [h]; exact Real.sqrt_sq hL
 
-theorem exHypJ (lj : LineJoin) (hlj : lj = .bevel ∨ lj = .miter ∨ lj = .miterClip) : CoverHyp (exEnvJ lj) (1 / 10 ^ 8) where
+theorem exHypJ (lj : LineJoin) (hlj : lj = .bevel ∨ lj = .miter ∨ lj = .miterClip ∨ lj = .round) : CoverHyp (exEnvJ lj) (1 / 10 ^ 8) where
   sqrt_nonneg := fun x _ => Real.sqrt_nonneg x
   sqrt_sq := fun x hx => Real.mul_self_sqrt hx
   ix_eq := rfl
   eps_nonneg := by positivity
   fw := rfl
-  join := hlj
-  scap := by show Lyon.StrokeQuad.Cap.butt ≠ .round; decide
-  ecap := by show Lyon.StrokeQuad.Cap.square ≠ .round; decide
+  join := by
+    rcases hlj with h | h | h | h
+    · exact Or.inl h
+    · exact Or.inr (Or.inl h)
+    · exact Or.inr (Or.inr (Or.inl h))
+    · refine Or.inr (Or.inr (Or.inr ⟨h, fun x => ?_⟩))
+      show Real.cos x * Real.cos x + Real.sin x * Real.sin x = 1
+      have := Real.cos_sq_add_sin_sq x; nlinarith
+  clip := fun _ => by
+    constructor
+    · show (1 : ℝ) ≤ 4; norm_num
+    · show (1 / 10 ^ 8 : ℝ) < 2 * half
+      have : (half : ℝ) = 1 / 2 := sc_half
+      rw [this]; norm_num
+  scap := Or.inl (by show Lyon.StrokeQuad.Cap.butt ≠ .round; decide)
+  ecap := Or.inl (by show Lyon.StrokeQuad.Cap.square ≠ .round; decide)
   hw := by
     show (0 : ℝ) < 2 * half
     have : (half : ℝ) = 1 / 2 := sc_half
@@ -225,7 +238,7 @@ theorem exRegimeJ (lj : LineJoin) : Regime (exEnvJ lj) (1 / 10 ^ 8) exPt 3 := by
     show (2 : ℝ) * half = 1
     have : (half : ℝ) = 1 / 2 := sc_half
     rw [this]; norm_num
-  refine ⟨?_, ?_, ?_, ?_, ?_, ?_⟩
+  refine ⟨?_, ?_, ?_, ?_, ?_⟩
   · intro i hi
     interval_cases i <;>
       (simp [exEnvJ, exPt, pointsAreTooClose, Env.new, squareMergeThreshold, geom]; norm_num)
@@ -254,28 +267,6 @@ theorem exRegimeJ (lj : LineJoin) : Regime (exEnvJ lj) (1 / 10 ^ 8) exPt 3 := by
     · simp only [tauAbs]; norm_num; rw [exL0, exTau0]; norm_num [abs_of_neg]
     · simp only [tauAbs]; norm_num; rw [exL1, exTau0, exTau1]; norm_num [abs_of_neg, abs_of_pos]
     · simp only [tauAbs]; norm_num; rw [exL2, exTau1]; norm_num [abs_of_pos]
-  · -- MiterClip: both miters have squared length `1 + (1/2)² = 5/4 ≤ (2·4)²`: kept
-    intro i hi hmc
-    have hs0 : ∀ x : ℝ, 0 ≤ x → 0 ≤ Transc.sqrt x := fun x _ => Real.sqrt_nonneg x
-    have hs : ∀ x : ℝ, 0 ≤ x → Transc.sqrt x * Transc.sqrt x = x := fun x hx => Real.mul_self_sqrt hx
-    have hml : (exEnvJ lj).o.miterLimit = 4 := rfl
-    interval_cases i
-    · refine keptAt_of_limit _ hs0 hs _ _ _ (by simp only [exPt, geom]; norm_num) (by simp only [exPt, geom]; norm_num)
-        ?_ (Or.inr hmc) ?_
-      · have h1 : (exPt (0 + 1 + 1) - exPt (0 + 1)).sdiv (len (exPt (0 + 1 + 1) - exPt (0 + 1))) = eT exPt 1 := rfl
-        have h0 : (exPt (0 + 1) - exPt 0).sdiv (len (exPt (0 + 1) - exPt 0)) = eT exPt 0 := rfl
-        rw [h1, h0, exT0, exT1, normalEpsilon_eq]; simp only [geom]; norm_num
-      · have h1 : (exPt (0 + 1 + 1) - exPt (0 + 1)).sdiv (len (exPt (0 + 1 + 1) - exPt (0 + 1))) = eT exPt 1 := rfl
-        have h0 : (exPt (0 + 1) - exPt 0).sdiv (len (exPt (0 + 1) - exPt 0)) = eT exPt 0 := rfl
-        rw [h1, h0, exT0, exT1, hml]; simp only [geom]; norm_num
-    · refine keptAt_of_limit _ hs0 hs _ _ _ (by simp only [exPt, geom]; norm_num) (by simp only [exPt, geom]; norm_num)
-        ?_ (Or.inr hmc) ?_
-      · have h1 : (exPt (1 + 1 + 1) - exPt (1 + 1)).sdiv (len (exPt (1 + 1 + 1) - exPt (1 + 1))) = eT exPt 2 := rfl
-        have h0 : (exPt (1 + 1) - exPt 1).sdiv (len (exPt (1 + 1) - exPt 1)) = eT exPt 1 := rfl
-        rw [h1, h0, exT1, exT2, normalEpsilon_eq]; simp only [geom]; norm_num
-      · have h1 : (exPt (1 + 1 + 1) - exPt (1 + 1)).sdiv (len (exPt (1 + 1 + 1) - exPt (1 + 1))) = eT exPt 2 := rfl
-        have h0 : (exPt (1 + 1) - exPt 1).sdiv (len (exPt (1 + 1) - exPt 1)) = eT exPt 1 := rfl
-        rw [h1, h0, exT1, exT2, hml]; simp only [geom]; norm_num
 
 theorem exRegime : Regime exEnv (1 / 10 ^ 8) exPt 3 := exRegimeJ _
 
@@ -333,7 +324,7 @@ example : reachSq (exEnvJ .miter) exPt 3 1 ≤ (exEnvJ .miter).hwFw * (exEnvJ .m
   rw [e1, e2] at this
   simpa using this
 
-/-- `LineJoin::MiterClip` whose miters stay within the limit (`keptAt`, part of the regime): covered like `Miter` -/
+/-- `LineJoin::MiterClip` (miter limit 4: both miters of this polyline are kept) -/
 example (store : Nat → List ℝ) (s u : ℝ) (hs : 0 ≤ s) (hs1 : s ≤ 1) (hu : -1 ≤ u) (hu1 : u ≤ 1) :
     ∃ t ∈ (runEvents (exEnvJ .miterClip) store (polyEvs exPt 3)).st.out.tris, ∃ v1 v2 v3 : VData ℝ,
       (runEvents (exEnvJ .miterClip) store (polyEvs exPt 3)).st.out.verts[t.1]? = some v1
@@ -341,7 +332,7 @@ example (store : Nat → List ℝ) (s u : ℝ) (hs : 0 ≤ s) (hs1 : s ≤ 1) (h
       ∧ (runEvents (exEnvJ .miterClip) store (polyEvs exPt 3)).st.out.verts[t.2.2]? = some v3
       ∧ InTri (bandPoint (exPt 0) (exPt 1) ((perp (eT exPt 0)).smul (exEnvJ .miterClip).hwFw) s u)
           (v1.read.position, v2.read.position, v3.read.position) :=
-  stroke_polyline_covers_rectangles (exEnvJ .miterClip) _ (exHypJ _ (Or.inr (Or.inr rfl))) store exPt 3 (by norm_num)
+  stroke_polyline_covers_rectangles (exEnvJ .miterClip) _ (exHypJ _ (Or.inr (Or.inr (Or.inl rfl)))) store exPt 3 (by norm_num)
     (exRegimeJ _) 0 (by norm_num) s u hs hs1 hu hu1
 
 /-- the hypotheses of `stroke_polyline_emission_shape` hold for the example (they are part of `exRegime`) -/
